@@ -514,6 +514,9 @@ class Emit:
             raise TErr("field access on non-self")
         if k == "cast":
             if e[1] in ("f64", "f32"):
+                ie = self.int_expr(e[2])
+                if ie is not None:
+                    return "((%s : Nat) : F)" % ie         # integer expression (usize) converted to the scalar
                 return self.expr(e[2], pre)
             raise TErr("cast to %s" % e[1])
         if k == "call":
@@ -539,6 +542,23 @@ class Emit:
         if k == "tuple":
             return "(" + ", ".join(self.expr(x, pre) for x in e[1]) + ")"
         raise TErr("expression kind %s outside the subset" % k)
+
+    def int_expr(self, e):
+        """Lean `Nat` text of an expression over the configured integer variables (usize: `-` is truncated subtraction in
+        the model; the code would panic on underflow in a debug build), or None"""
+        iv = self.cfg.get("int_vars", ())
+        k = e[0]
+        if k == "num":
+            return e[1] if re.fullmatch(r"\d+(_?usize|_?u64)?", e[1]) else None
+        if k == "var":
+            return e[1] if e[1] in iv else None
+        if k == "paren":
+            r = self.int_expr(e[1])
+            return None if r is None else "(%s)" % r
+        if k == "bin" and e[1] in "+-*":
+            a, b = self.int_expr(e[2]), self.int_expr(e[3])
+            return None if a is None or b is None else "(%s %s %s)" % (a, e[1], b)
+        return None
 
     # --- helpers on statement lists
     @staticmethod
@@ -746,7 +766,27 @@ def count(ss):
 
 CTX = "variable {F : Type} [Add F] [Sub F] [Mul F] [Div F] [Neg F] [LT F] [DecidableLT F] [LE F] [DecidableLE F] [NatCast F]"
 
+RATE = r"let\s+lambda\s*=\s*(.*?);"
 TARGETS = {
+    "PmhConstGen": {
+        "files": ["/repo/src/probminhasher/probminhash3.rs", "/repo/src/probminhasher/probminhash3sha.rs", "/repo/src/probminhasher/probminhash2.rs"],
+        "imports": ["PMH.Model.Exp01"],
+        "fns": [
+            {"file": "/repo/src/probminhasher/probminhash3.rs", "impl": r"impl<D, H>\s+ProbMinHash3<D, H>", "fn": "new", "name": "pmh3Lambda", "pattern": RATE,
+             "ops": "o", "self_fields": {}, "rng": None, "site": "ProbMinHash3::new", "int_vars": ("nbhash",),
+             "binders_top": "(o : ExpOps F) (nbhash : Nat)", "rettype_top": "F"},
+            {"file": "/repo/src/probminhasher/probminhash3.rs", "impl": r"impl<D, H>\s+ProbMinHash3a<D, H>", "fn": "new", "name": "pmh3aLambda", "pattern": RATE,
+             "ops": "o", "self_fields": {}, "rng": None, "site": "ProbMinHash3a::new", "int_vars": ("nbhash",),
+             "binders_top": "(o : ExpOps F) (nbhash : Nat)", "rettype_top": "F"},
+            {"file": "/repo/src/probminhasher/probminhash3sha.rs", "impl": r"impl<D>\s+ProbMinHash3aSha<D>", "fn": "new", "name": "pmh3aShaLambda", "pattern": RATE,
+             "ops": "o", "self_fields": {}, "rng": None, "site": "ProbMinHash3aSha::new", "int_vars": ("nbhash",),
+             "binders_top": "(o : ExpOps F) (nbhash : Nat)", "rettype_top": "F"},
+            {"file": "/repo/src/probminhasher/probminhash2.rs", "impl": r"impl<D, H>\s+ProbMinHash2<D, H>", "fn": "new", "name": "pmh2Beta",
+             "pattern": r"let\s+betas\s*:\s*Vec<f64>\s*=\s*\(0\.\.nbhash\)\s*\.map\(\|x\|\s*(.*?)\)\s*\.collect\(\)\s*;",
+             "ops": "o", "self_fields": {}, "rng": None, "site": "ProbMinHash2::new", "int_vars": ("nbhash", "x"),
+             "binders_top": "(nbhash x : Nat)", "rettype_top": "F"},
+        ],
+    },
     "JaccardBoundsGen": {
         "file": "/repo/src/setsketcher.rs",
         "imports": ["PMH.Model.JaccardBounds"],
@@ -777,8 +817,28 @@ TARGETS = {
 }
 
 
+def translate_snippet(src, cfg):
+    """one expression cut out of a function body by a regular expression (group 1), e.g. the right-hand side of `let lambda = …;`"""
+    text = find_fn(src, cfg.get("impl"), cfg["fn"])
+    m = re.search(cfg["pattern"], text, re.S)
+    if not m:
+        raise TErr("pattern for %s not found in fn %s" % (cfg["name"], cfg["fn"]))
+    pz = Parser(tokenize(m.group(1)))
+    e = pz.expr()
+    if pz.peek()[0] != "eof":
+        raise TErr("trailing tokens in the expression of %s" % cfg["name"])
+    em = Emit(cfg)
+    pre = []
+    v = em.expr(e, pre)
+    if pre:
+        raise TErr("draw inside a constant expression")
+    return "def %s %s : %s :=\n  %s" % (cfg["name"], cfg["binders_top"], cfg["rettype_top"], v), {"fn": cfg["fn"], "expression": cfg["name"]}, []
+
+
 def translate(target):
     t = TARGETS[target]
+    if "files" in t:
+        return translate_multi(target)
     src = open(t["file"]).read()
     parts, info = [], []
     helpers = []
@@ -795,6 +855,21 @@ def translate(target):
                  "macro \"gen_unfold_%s\" : tactic => `(tactic| simp only [%s])" % (target, ", ".join(helpers) if helpers else "id"))
     head = "".join("import %s\n" % i for i in t["imports"])
     head += "/-! GENERATED by tools/translate_float.py from %s on every check - do not edit. -/\n" % t["file"]
+    head += "set_option linter.unusedVariables false\nnamespace PMH.Gen\nopen PMH\n%s\n\n" % CTX
+    return head + "\n\n".join(parts) + "\n\nend PMH.Gen\n", info
+
+
+def translate_multi(target):
+    t = TARGETS[target]
+    parts, info = [], []
+    for cfg in t["fns"]:
+        src = open(cfg["file"]).read()
+        txt, inf, _ = translate_snippet(src, cfg)
+        parts.append(txt)
+        inf["source"] = cfg["file"]
+        info.append(inf)
+    head = "".join("import %s\n" % i for i in t["imports"])
+    head += "/-! GENERATED by tools/translate_float.py from %s on every check - do not edit. -/\n" % ", ".join(t["files"])
     head += "set_option linter.unusedVariables false\nnamespace PMH.Gen\nopen PMH\n%s\n\n" % CTX
     return head + "\n\n".join(parts) + "\n\nend PMH.Gen\n", info
 
